@@ -1269,9 +1269,11 @@ class Recorder:
                 return
             # hypothesis `exportedAt` of the C14 theorems: the exported lines are numbered id, id+1, ...
             gid = args[0]
+            # and hypothesis `shapeOk` of apply_tactic_preserves_wf: no subproofs, citations admissible
             for k, ln in enumerate(cap[0]):
-                if ln[0][0] != gid[:-1] + [gid[-1] + k] or ln[0][4] or ln[0][5]:
-                    self.export_shape_mismatch.append((gid, [x[0][0] for x in cap[0]]))
+                if ln[0][0] != gid[:-1] + [gid[-1] + k] or ln[0][4] or ln[0][5] \
+                        or not all(visible(tuple(p), tuple(ln[0][0])) for p in ln[0][2]):
+                    self.export_shape_mismatch.append((gid, [(x[0][0], x[0][2]) for x in cap[0]]))
                     break
             op = ["tactic", before, args[0], cap[0]]
         elif name == "find_goal":
@@ -1372,8 +1374,8 @@ def correspondence(ctx, recorder, exe=None, id_cases=None):
                    "%d primitive calls seen, none could be recorded (signature of the ProofState primitives changed?)" % recorder.calls)
     if recorder.export_shape_mismatch:
         ctx.broken("correspondence:%s:exported-ids" % ctx.prop.lower(),
-                   "ProofTerm.export(prefix=id, subproof=False) did not number its lines id, id+1, ... without subproofs "
-                   "(hypothesis `exportedAt` of the C14 theorems): %s" % (recorder.export_shape_mismatch[:2],))
+                   "ProofTerm.export(prefix=id, subproof=False) did not deliver lines id, id+1, ... without subproofs and with "
+                   "admissible citations (hypotheses `exportedAt` / `shapeOk` of the theorems): %s" % (recorder.export_shape_mismatch[:2],))
     wf_rng = ctx.rng("wf")
     for name, op, after in recorder.records:
         lines.append(sexp.dumps(op))
@@ -1527,16 +1529,15 @@ MANIFEST = {
             "stated goal, full re-check with exactly the open gaps, acceptance with no_gaps when none is left, export->import identity, copy "
             "isolation (lines, variables and report). Lean: executable model of the proof-tree structure and of add_line_before / remove_line "
             "/ set_line / replace_id / find_goal / apply_tactic, tied to the code by replaying every recorded primitive call and the ItemID "
-            "arithmetic on the model. Proved: add_line_before (before an existing line) and set_line (with admissible citations) preserve "
-            "well-formedness = ids equal positions at every depth + every citation satisfies can_depend_on (add_line_preserves_wf, "
-            "set_line_preserves_wf), so do remove_line of a line that no line of its proof cites (remove_line_preserves_wf) and replace_id "
-            "of an existing line by a line visible from it (replace_id_preserves_wf); sequences of these four: edits_preserve_wf_partial; "
-            "in a well-formed state every cited line exists (wf_citation_resolves); shift_preserves_visibility, visibility_transitive, "
-            "replace_preserves_citations; goal_preserved_partial. NOT proved: apply_tactic as a composite (that its inner calls meet the "
-            "preconditions of these theorems, for well-formedness and for the last line); export/import. "
+            "arithmetic on the model. Proved (edit_preserves_wf, edits_preserve_wf): each of the five operations, hence every sequence, "
+            "preserves well-formedness = ids equal positions at every depth + every citation satisfies can_depend_on, under the precondition "
+            "the code establishes (insert before an existing line; set_line with admissible citations; remove a line no line of its proof "
+            "cites; replace_id by a line visible from the old one; apply_tactic with exported lines that have no subproofs and admissible "
+            "citations - checked on every captured export); wf_citation_resolves: in a well-formed state every cited line exists. "
             "goal_preserved_partial only says that add_line_before/remove_line/set_line calls which do not target the last top-level line "
-            "leave its rule and sequent alone (hypothesis safeRun); that the methods - in particular apply_tactic's inner calls - meet "
-            "safeRun is not proved, it is observed by the oracle (last line checked after every step) and the correspondence stream.",
+            "leave its rule and sequent alone (hypothesis safeRun); that replace_id / apply_tactic keep the last line, and that the methods "
+            "meet safeRun, is NOT proved - it is observed by the oracle (last line checked after every step) and the correspondence stream. "
+            "Export/import is oracle-only.",
     "note": "Trusted: Lean kernel (propext/Classical.choice/Quot.sound), the harness (generators, invariants, recorder), holpy's own checker "
             "theory.check_proof as the judge of 'checkable', term printing/parsing for the export comparison, z3 checks switched off "
             "(z3wrapper.check_z3=False). Tactic bodies and Python aliasing are not modelled; copy isolation is checked on real objects only.",
